@@ -39,7 +39,8 @@ def abstract(r, keys, offset_first):
         notes.append({"c": keys - 1, "q": q, "ln": 0})
     # tempo plan: (quarter beat, beat length in ticks); the third point returns to the first value
     plan = [(0, 50000), (16, 25000), (24, 50000)][: r.choice([1, 1, 2, 3])]
-    return {"keys": keys, "bl": bl, "t0": t0, "notes": sorted(notes, key=lambda n: n["q"]), "plan": plan}
+    return {"keys": keys, "bl": bl, "t0": t0, "notes": sorted(notes, key=lambda n: n["q"]), "plan": plan,
+            "shuffle_tps": r.random() < 0.4, "mixed_types": r.random() < 0.4, "levels_differ": r.random() < 0.5}
 
 
 def _time(a, q):
@@ -68,6 +69,8 @@ def source(game, a, r):
         for q0, bl in a["plan"][1:]:
             tps.append({"t": int(_time(a, q0) * 1000), "code": bl, "meter": 4, "ss": 0, "si": 0, "vol": 100, "uninh": 1, "fx": 0, "arity": 8})
         from harness.drivers.c01 import meta_lines
+        if a.get("shuffle_tps"):
+            tps = tps[1:] + tps[:1]          # timing-point lines out of time order
         lines = osu_text.concretize({"objs": objs, "tps": tps, "samples": [], "bg": "bg.png"}, meta_lines(K, r, 1))
         return lines, osu_text.lex(lines), ""
     if game == "qua":
@@ -78,6 +81,8 @@ def source(game, a, r):
         tps = [{"st": I(a["t0"]), "bpm": {"tag": "float", "num": 12000}}]
         for q0, bl in a["plan"][1:]:
             tps.append({"st": I(_time(a, q0)), "bpm": {"tag": "float", "num": 6000000 * 100 // bl}})
+        if a.get("shuffle_tps"):
+            tps = tps[1:] + tps[:1]
         text = qua_text.concretize({"objs": objs, "tps": tps, "svs": []},
                                    {"Title": "T", "Artist": "A", "Creator": "C", "DifficultyName": "D", "Mode": f"Keys{K}"})
         return text, qua_text.tokens(text), ""
@@ -88,10 +93,11 @@ def source(game, a, r):
         scn = {"type": SM_TYPE[K], "rows": [16, 16], "objs": objs, "off": int(a["t0"] * 100),
                "bpms": [{"p48": q0 * 12, "bl": bl} for q0, bl in a["plan"]]}
         # a second, different chart of the same type in the set
-        k2 = K
+        # (for some, of another chart type with another key count)
+        k2 = K if not a.get("mixed_types") else (7 if K == 4 else 4)
         grid2 = [["0"] * k2 for _ in range(8)]
         grid2[1][0], grid2[5][k2 - 1] = "1", "1"
-        text = sm_text.concretize(scn, extra_charts=[(SM_TYPE[K], [grid2[:4], grid2[4:]], "Easy", "2")])
+        text = sm_text.concretize(scn, extra_charts=[(SM_TYPE[k2], [grid2[:4], grid2[4:]], "Easy", "2")])
         return text, sm_text.lex(text), ""
     if game == "bms":
         lines = []
@@ -120,7 +126,11 @@ def source(game, a, r):
         for m, evs in tev.items():
             lvl.append({"m": m, "ch": 1, "n": 2, "evs": evs})
         lvl.sort(key=lambda p: (p["m"], p["ch"]))
-        data = ojn_bytes.encode([lvl, lvl, lvl], 50000)
+        # the three difficulties carry different tempo tracks: the first event only / all events / none
+        notes_only = [p for p in lvl if p["ch"] != 1]
+        first_only = notes_only + ([{"m": min(tev), "ch": 1, "n": 2, "evs": tev[min(tev)][:1]}] if tev else [])
+        first_only.sort(key=lambda p: (p["m"], p["ch"]))
+        data = ojn_bytes.encode([first_only, lvl, notes_only] if a.get("levels_differ") else [lvl, lvl, lvl], 50000)
         return data, ojn_bytes.decode(data), ""
     raise ValueError(game)
 
